@@ -305,12 +305,25 @@ pub fn intended(e: &E) -> Option<String> {
     })
 }
 
+thread_local! {
+    /// what print_full writes for an opening / closing parenthesis (layout inside a group carries no meaning)
+    static PAREN: std::cell::Cell<(&'static str, &'static str)> = std::cell::Cell::new(("(", ")"));
+}
+
+/// group layouts: tight, spaces inside, a line break inside, a blank line inside
+const PAREN_STYLES: [(&str, &str); 4] = [("(", ")"), ("( ", " )"), ("(\n", "\n)"), ("(\n\n", "\n\n)")];
+
+fn paren(inner: &str) -> String {
+    let (o, c) = PAREN.with(|p| p.get());
+    format!("{}{}{}", o, inner, c)
+}
+
 /// fully parenthesised source: every operand of every operator in ( )
 pub fn print_full(e: &E) -> Option<String> {
     let p = |x: &E| -> Option<String> {
         Some(match x {
             E::Unit | E::True | E::False | E::Int(_) | E::Float(_) | E::Str(_) | E::Bytes(_) | E::Sym(_) | E::Val | E::Ident(_) | E::Group(_) | E::Nested(..) => print_full(x)?,
-            _ => format!("({})", print_full(x)?),
+            _ => paren(&print_full(x)?),
         })
     };
     Some(match e {
@@ -326,7 +339,7 @@ pub fn print_full(e: &E) -> Option<String> {
         E::SpaceList(items) => {
             let mut cur = p(&items[0])?;
             for (k, it) in items[1..].iter().enumerate() {
-                cur = if k == 0 { format!("{} {}", cur, p(it)?) } else { format!("({}) {}", cur, p(it)?) };
+                cur = if k == 0 { format!("{} {}", cur, p(it)?) } else { format!("{} {}", paren(&cur), p(it)?) };
             }
             cur
         }
@@ -336,12 +349,12 @@ pub fn print_full(e: &E) -> Option<String> {
             } else {
                 let mut cur = p(&items[0])?;
                 for (k, it) in items[1..].iter().enumerate() {
-                    cur = if k == 0 { format!("{}, {}", cur, p(it)?) } else { format!("({}), {}", cur, p(it)?) };
+                    cur = if k == 0 { format!("{}, {}", cur, p(it)?) } else { format!("{}, {}", paren(&cur), p(it)?) };
                 }
                 cur
             }
         }
-        E::Group(x) => format!("({})", print_full(x)?),
+        E::Group(x) => paren(&print_full(x)?),
         E::Nested(_, x) => format!("{{ {} }}", print_full(x).or_else(|| print(x))?),
         E::SideAfter(v, eff) => format!("{} [{}]", print(v)?, print_full(eff).or_else(|| print(eff))?),
         E::PrefixApply(f, x) => format!("{}` {}", f, p(x)?),
@@ -372,15 +385,22 @@ fn verdict(e: &E) -> Option<(String, String, String)> {
                 return Some(("tree-differs-from-table".into(), src, format!("{} (intended {})", got, want)));
             }
             // writing out the parentheses the table implies changes nothing but group nodes
-            if let Some(full) = print_full(e) {
+            for (si, style) in PAREN_STYLES.iter().enumerate() {
+                PAREN.with(|p| p.set(*style));
+                let full = print_full(e);
+                PAREN.with(|p| p.set(PAREN_STYLES[0]));
+                let full = match full {
+                    Some(f) => f,
+                    None => break,
+                };
+                let tag = if si == 0 { String::new() } else { format!("/group-layout-{}", si) };
                 match tree_of(&full) {
-                    Ok(g2) if g2 == got => None,
-                    Ok(g2) => Some(("explicit-parentheses-change-the-tree".into(), src, format!("{} => {} (minimal {})", full, g2, got))),
-                    Err(k) => Some((format!("fully-parenthesised-form-rejected[{}]", k), src, full)),
+                    Ok(g2) if g2 == got => {}
+                    Ok(g2) => return Some((format!("explicit-parentheses-change-the-tree{}", tag), src, format!("{} => {} (minimal {})", show(&full), g2, got))),
+                    Err(k) => return Some((format!("fully-parenthesised-form-rejected[{}]{}", k, tag), src, show(&full))),
                 }
-            } else {
-                None
             }
+            None
         }
     }
 }
